@@ -1,5 +1,6 @@
 (* Lemmas about Model/Flags.v and Model/CliFlags.v (C14, flag handling). *)
 From Coq Require Import ZArith List Bool Lia.
+From Knut Require Import Model.RxSyntax.   (* first: the names of the modules below take precedence *)
 From Knut Require Import Model.Str Model.Date Model.Flags Model.Loader Model.CliSafe Model.CliFlags
      Proofs.CalendarSweep Proofs.CalendarProofs.
 Import ListNotations.
@@ -149,13 +150,13 @@ Definition mapping_text (v : str) (l sf : Z) (r : option str) : Prop :=
 
 Lemma mapping_finish_ok l sf r l' sf' r' :
   mapping_finish l sf r = MapOk l' sf' r' <->
-  l' = l /\ sf' = sf /\ r' = r /\ 0 <= l /\ 0 <= sf /\ (forall x, r = Some x -> rx_class x = RxOk).
+  l' = l /\ sf' = sf /\ r' = r /\ 0 <= l /\ 0 <= sf /\ (forall x, r = Some x -> rx_valid x = true).
 Proof.
   unfold mapping_finish. split.
   - destruct ((l <? 0) || (sf <? 0)) eqn:E; [discriminate|].
     apply orb_false_iff in E. destruct E as [A B]. apply Z.ltb_ge in A, B.
     destruct r as [x|].
-    + destruct (rx_class x) eqn:Ec; try discriminate. intros H. injection H as <- <- <-.
+    + destruct (rx_valid x) eqn:Ec; try discriminate. intros H. injection H as <- <- <-.
       repeat split; try assumption. intros y Hy. injection Hy as <-. exact Ec.
     + intros H. injection H as <- <- <-. repeat split; try assumption. intros y Hy. discriminate.
   - intros (-> & -> & -> & A & B & C).
@@ -166,7 +167,7 @@ Qed.
 
 Theorem mapping_flag_iff v l sf r :
   parse_mapping v = MapOk l sf r <->
-  mapping_text v l sf r /\ 0 <= l /\ 0 <= sf /\ (forall x, r = Some x -> rx_class x = RxOk).
+  mapping_text v l sf r /\ 0 <= l /\ 0 <= sf /\ (forall x, r = Some x -> rx_valid x = true).
 Proof.
   unfold parse_mapping. split.
   - destruct (split_first 44 v) as [nums rxpart] eqn:Ev.
@@ -195,29 +196,7 @@ Proof.
       apply existsb_eqb_false in Hb58. rewrite Hb58, Ha, Hb. apply mapping_finish_ok. tauto.
 Qed.
 
-(* rejected for exactly one of four reasons; no opinion only on an expression outside the sublanguage *)
-Lemma parse_mapping_unknown v : parse_mapping v = MapUnknown ->
-  exists nums x, v = nums ++ 44 :: x /\ rx_class x = RxUnknown.
-Proof.
-  unfold parse_mapping.
-  destruct (split_first 44 v) as [nums rxpart] eqn:Ev.
-  destruct (split_first_inv _ _ _ _ Ev) as [_ Hv].
-  assert (F : forall l sf, mapping_finish l sf rxpart = MapUnknown -> exists x, rxpart = Some x /\ rx_class x = RxUnknown).
-  { intros l sf. unfold mapping_finish. destruct ((l <? 0) || (sf <? 0)); [discriminate|].
-    destruct rxpart as [x|]; [|discriminate]. destruct (rx_class x) eqn:Ec; try discriminate.
-    intros _. exists x. split; [reflexivity|exact Ec]. }
-  intros H. assert (G : exists x, rxpart = Some x /\ rx_class x = RxUnknown).
-  { destruct (split_first 58 nums) as [a [b|]].
-    - destruct (existsb (Z.eqb 58) b); [discriminate|].
-      destruct (atoi a); [|discriminate]. destruct (atoi b); [|discriminate]. eapply F; eauto.
-    - destruct (atoi a); [|discriminate]. eapply F; eauto. }
-  destruct G as (x & -> & Hx). exists nums, x. split; assumption.
-Qed.
-
 (* ---------------------------------------------------------------- every value: total, in range *)
-
-(* the kinds whose parser the model follows on every string *)
-Definition total_kind (k : fkind) : bool := match k with KRegex | KMapping => false | _ => true end.
 
 Lemma parse_value_in_range k s v : parse_value k s = VOk v -> value_in_range k v = true.
 Proof.
@@ -234,34 +213,20 @@ Proof.
   - destruct (parse_date_flag s) as [d|] eqn:E; [|discriminate].
     intros H. injection H as <-. pose proof (parse_date_flag_year _ _ E) as R. cbn [value_in_range].
     apply andb_true_iff. split; apply Z.leb_le; lia.
-  - destruct (rx_class s); try discriminate. intros H. injection H as <-. reflexivity.
-  - destruct (parse_mapping s) as [l sf r|[| | |]|] eqn:E; try discriminate.
+  - destruct (rx_valid s); try discriminate. intros H. injection H as <-. reflexivity.
+  - destruct (parse_mapping s) as [l sf r|[| | |]] eqn:E; try discriminate.
     intros H. injection H as <-. apply mapping_flag_iff in E. destruct E as (_ & A & B & _).
     cbn [value_in_range]. apply andb_true_iff. split; apply Z.leb_le; assumption.
   - intros H. injection H as <-. reflexivity.
 Qed.
 
+(* every flag kind, every string: accepted with a value in range, or rejected *)
 Theorem flags_total k s :
-  (exists v, parse_value k s = VOk v /\ value_in_range k v = true) \/
-  (exists e, parse_value k s = VErr e) \/
-  (parse_value k s = VUnknown /\ total_kind k = false).
-Proof.
-  destruct (parse_value k s) as [v|e|] eqn:E.
-  - left. exists v. split; [reflexivity|]. eapply parse_value_in_range; eauto.
-  - right. left. exists e. reflexivity.
-  - right. right. split; [reflexivity|].
-    destruct k; cbn [parse_value] in E; try reflexivity.
-    + destruct (parse_bool s); discriminate.
-    + unfold int_value in E. destruct (parse_int s 0 64) as [n|[|]]; discriminate.
-    + unfold int_value in E. destruct (parse_int s 0 32) as [n|[|]]; discriminate.
-    + destruct (parse_date_flag s); discriminate.
-    + discriminate.
-Qed.
-
-Corollary flags_total_strict k s : total_kind k = true ->
   (exists v, parse_value k s = VOk v /\ value_in_range k v = true) \/ (exists e, parse_value k s = VErr e).
 Proof.
-  intros Hk. destruct (flags_total k s) as [H|[H|[_ H]]]; [left; exact H|right; exact H|congruence].
+  destruct (parse_value k s) as [v|e] eqn:E.
+  - left. exists v. split; [reflexivity|]. eapply parse_value_in_range; eauto.
+  - right. exists e. reflexivity.
 Qed.
 
 (* ---------------------------------------------------------------- the argument list *)
@@ -289,7 +254,7 @@ Definition setting_ok (defs : list fdef) (nv : setting) : Prop :=
 
 Lemma set_flag_sets defs d v l u : In d defs -> set_flag d v = ASets l u -> Forall (setting_ok defs) l.
 Proof.
-  intros Hd. unfold set_flag. destruct (parse_value (f_kind d) v) as [x| |] eqn:E; try discriminate.
+  intros Hd. unfold set_flag. destruct (parse_value (f_kind d) v) as [x|] eqn:E; try discriminate.
   intros H. injection H as <- _. constructor; [|constructor].
   exists d, v. repeat split; assumption.
 Qed.
@@ -297,7 +262,7 @@ Qed.
 Lemma set_flag_sets' defs d v u : In d defs ->
   forall l u', match set_flag d v with ASets l0 _ => ASets l0 u | r => r end = ASets l u' -> Forall (setting_ok defs) l.
 Proof.
-  intros Hd l u'. destruct (set_flag d v) as [l0 u0| | | |] eqn:E; try discriminate.
+  intros Hd l u'. destruct (set_flag d v) as [l0 u0| | |] eqn:E; try discriminate.
   intros H. injection H as <- _. eapply set_flag_sets; eauto.
 Qed.
 
@@ -340,8 +305,8 @@ Proof.
                    end = ASets l u -> Forall (setting_ok defs) l).
     { destruct (f_kind d) eqn:Ek;
         try (destruct rest as [|r0 rt]; [destruct next as [v|]; [apply Hlast|discriminate]|apply Hlast]).
-      destruct (set_flag d k_true) as [l0 u0| | | |] eqn:Es; try discriminate.
-      destruct (short_args defs rest next) as [l' u1| | | |] eqn:Er; try discriminate.
+      destruct (set_flag d k_true) as [l0 u0| | |] eqn:Es; try discriminate.
+      destruct (short_args defs rest next) as [l' u1| | |] eqn:Er; try discriminate.
       intros H'. injection H' as <- _. apply Forall_app. split.
       - eapply set_flag_sets; eauto.
       - eapply IH; eauto. }
@@ -362,7 +327,7 @@ Lemma pres_add_sets defs l p r sets pos :
   (forall s q, r = PArgs s q -> Forall (setting_ok defs) s) ->
   pres_add l p r = PArgs sets pos -> Forall (setting_ok defs) sets.
 Proof.
-  intros Hl Hr. destruct r as [s q| |]; cbn [pres_add]; try discriminate.
+  intros Hl Hr. destruct r as [s q|]; cbn [pres_add]; try discriminate.
   intros H. injection H as <- _. apply Forall_app. split; [exact Hl|eapply Hr; reflexivity].
 Qed.
 
@@ -375,7 +340,7 @@ Proof.
     - destruct args; [|cbn in Hlen; lia]. cbn in H. injection H as <- _. constructor.
     - destruct args as [|s rest]; [cbn in H; injection H as <- _; constructor|].
       cbn [parse_args] in H. cbn [length] in Hlen.
-      destruct (arg_step defs s (hd_error rest)) as [l u| | | |] eqn:Es; try discriminate.
+      destruct (arg_step defs s (hd_error rest)) as [l u| | |] eqn:Es; try discriminate.
       + pose proof (arg_step_sets _ _ _ _ _ Es) as Hl.
         destruct u.
         * destruct rest as [|x rest']; [discriminate|].
@@ -394,7 +359,7 @@ Corollary cmdline_values_in_range c argv sets pos :
   parse_cmdline c argv = CLRun sets pos ->
   Forall (fun nv => exists d, In d (cmd_flags c) /\ f_name d = fst nv /\ value_in_range (f_kind d) (snd nv) = true) sets.
 Proof.
-  unfold parse_cmdline. destruct (parse_args (cmd_flags c) argv) as [s p| |] eqn:E; try discriminate.
+  unfold parse_cmdline. destruct (parse_args (cmd_flags c) argv) as [s p|] eqn:E; try discriminate.
   pose proof (parse_args_sound _ _ _ _ E) as Hs.
   destruct (get_bool n_help false s); [discriminate|].
   destruct (negb _); [discriminate|].
@@ -443,7 +408,7 @@ Lemma flags_ok_runs c today argv fs :
   run_argv c today argv fs = OHelp \/ exists sets pos, parse_cmdline c argv = CLRun sets pos /\
                                                        run_argv c today argv fs = run_command c today sets pos fs.
 Proof.
-  unfold flags_ok, run_argv. destruct (parse_cmdline c argv) as [s p| | |]; try discriminate; intros _.
+  unfold flags_ok, run_argv. destruct (parse_cmdline c argv) as [s p| |]; try discriminate; intros _.
   - right. exists s, p. split; reflexivity.
   - left. reflexivity.
 Qed.
@@ -517,12 +482,12 @@ Definition dashdash : str := [45; 45].
 
 Lemma pres_add_assoc l1 p1 l2 p2 r :
   pres_add l1 p1 (pres_add l2 p2 r) = pres_add (l1 ++ l2) (p1 ++ p2) r.
-Proof. destruct r as [s q| |]; cbn [pres_add]; [rewrite !app_assoc|..]; reflexivity. Qed.
+Proof. destruct r as [s q|]; cbn [pres_add]; [rewrite !app_assoc|..]; reflexivity. Qed.
 
 Lemma pres_add_inv l q r s p : pres_add l q r = PArgs s p ->
   exists s' p', r = PArgs s' p' /\ s = l ++ s' /\ p = q ++ p'.
 Proof.
-  destruct r as [s0 q0| |]; cbn [pres_add]; try discriminate.
+  destruct r as [s0 q0|]; cbn [pres_add]; try discriminate.
   intros H. injection H as <- <-. exists s0, q0. repeat split.
 Qed.
 
@@ -572,8 +537,8 @@ Proof.
     { unfold gen. destruct (f_kind d) eqn:Ek;
         try (destruct rest as [|r0 rt]; [discriminate|];
              intros E; pose proof (Hlast _ _ E) as ->; split; [reflexivity|intros y; exact E]).
-      destruct (set_flag d k_true) as [l0 u0| | | |]; try discriminate.
-      destruct (short_args defs rest None) as [l' u1| | | |] eqn:Er; try discriminate.
+      destruct (set_flag d k_true) as [l0 u0| | |]; try discriminate.
+      destruct (short_args defs rest None) as [l' u1| | |] eqn:Er; try discriminate.
       intros E. injection E as <- <-. destruct (IH _ _ eq_refl) as [-> Hy].
       split; [reflexivity|]. intros y. rewrite Hy. reflexivity. }
     change (match rest with
@@ -645,7 +610,7 @@ Proof.
     destruct pre' as [|y pre''].
     + (* x is the last element of the accepted prefix *)
       cbn [hd_error app] in *.
-      destruct (arg_step defs x None) as [l u| | | |] eqn:Es; try discriminate.
+      destruct (arg_step defs x None) as [l u| | |] eqn:Es; try discriminate.
       * destruct (arg_step_none _ _ _ _ Es) as [-> Hy].
         cbn [parse_args pres_add] in H. injection H as <- <-.
         destruct tail as [|t0 tail']; cbn [hd_error].
@@ -691,7 +656,7 @@ Proof.
            apply G.
     + (* the step sees the same next element *)
       cbn [hd_error] in H. rewrite <- app_comm_cons. cbn [hd_error].
-      destruct (arg_step defs x (Some y)) as [l u| | | |] eqn:Es; try discriminate.
+      destruct (arg_step defs x (Some y)) as [l u| | |] eqn:Es; try discriminate.
       * destruct u.
         -- apply pres_add_inv in H. destruct H as (s' & p' & Hr & -> & ->).
            rewrite (IH pre'' ltac:(cbn [length] in Hlen; lia) s' p' Hr ltac:(intros F; apply Hdd'; right; exact F)).
